@@ -187,8 +187,46 @@ pub fn c05_eval_after(run: &mut Run, prev: u16, w: u16) {
     }
 }
 
+/// The acceptance rule through the bit-serial entry point after a *run* of `count` copies of
+/// the frame `x` on the same decoder (held key, burst of line noise): free-running counters,
+/// re-synchronisation heuristics and the like show only after many frames.
+pub fn c05_eval_after_run(run: &mut Run, x: u16, count: usize, w: u16) {
+    run.eval(1);
+    let want: Result<Option<u8>, Error> = frame::check_word(w).map(Some);
+    let case = json!({"kind":"word_after_run","frame":x,"count":count,"word":w});
+    let got = guard(|| {
+        let mut d = Ps2Decoder::new();
+        for _ in 0..count {
+            for b in frame::word_bits(x) {
+                let _ = d.add_bit(b);
+            }
+        }
+        let mut last = Ok(None);
+        let mut early_ok = true;
+        for (i, b) in frame::word_bits(w).iter().enumerate() {
+            last = d.add_bit(*b);
+            if i < 10 && !matches!(last, Ok(None)) {
+                early_ok = false;
+            }
+        }
+        (early_ok, last)
+    });
+    match got {
+        Err(p) => run.violation(Violation { sig: format!("ps2:add_bit:after-run={:03X}x{}:word={:03X}:{}", x, count, w, panic_sig(&p)), what: format!("Ps2Decoder::add_bit panics shifting in {:#05X} after {} copies of the frame {:#05X}: {}", w, count, x, p), case }),
+        Ok((early_ok, last)) => {
+            if !early_ok || last != want {
+                run.violation(Violation {
+                    sig: format!("ps2:add_bit:after-run={:03X}({})x{}:word={:03X}:want={}:got={}", x, frame::err_class(x), count, w, res_opt_str(&want), if early_ok { res_opt_str(&last) } else { "early-result".into() }),
+                    what: format!("after {} copies of the {} frame {:#05X} shifted in bit by bit, the frame {:#05X} [start={} data={:02X} parity={} stop={}] gives {}; the acceptance rule requires {}", count, frame::err_class(x), x, w, w & 1, (w >> 1) & 0xFF, (w >> 9) & 1, (w >> 10) & 1, if early_ok { res_opt_str(&last) } else { "a result before the 11th bit".into() }, res_opt_str(&want)),
+                    case,
+                });
+            }
+        }
+    }
+}
+
 pub fn c05(run: &mut Run) {
-    run.rule = "Exhaustive: all 2048 11-bit words through Ps2Decoder::add_word (also with 1, 5 and 10 bits pending in the shift register), Keyboard::add_word (both scancode sets; framing verdict) and bit by bit through add_bit, compared with an independent frame model, and again through add_bit right after each of 8 representative preceding frames (valid, bad start, bad stop, parity error, all-ones, all-zeros) (start=0, stop=1, odd parity over data+parity, error priority start > stop > parity, data = bits 1..8). All 256 bytes are encoded by the model's encoder and must round-trip; all 11 single-bit and 55 double-bit corruptions of each of the 256 valid frames are compared with the model (every single-bit corruption must be rejected). Non-trivial = every word is (each is valid or has at least one defect); distinct = distinct (word, pending) and distinct (byte, flipped bit set).".into();
+    run.rule = "Exhaustive: all 2048 11-bit words through Ps2Decoder::add_word (also with 1, 5 and 10 bits pending in the shift register), Keyboard::add_word (both scancode sets; framing verdict) and bit by bit through add_bit, compared with an independent frame model, and again through add_bit right after each of 8 representative preceding frames (valid, bad start, bad stop, parity error, all-ones, all-zeros), and after runs of 2-48, 64, 127-129, 255-257, 300, 511-513 and 1000 (thorough: up to 65537) copies of one frame (valid or rejected) with 12 probe frames (start=0, stop=1, odd parity over data+parity, error priority start > stop > parity, data = bits 1..8). All 256 bytes are encoded by the model's encoder and must round-trip; all 11 single-bit and 55 double-bit corruptions of each of the 256 valid frames are compared with the model (every single-bit corruption must be rejected). Non-trivial = every word is (each is valid or has at least one defect); distinct = distinct (word, pending) and distinct (byte, flipped bit set).".into();
     run.assumptions = vec!["words with bits above bit 10 are outside the documented precondition and only exercised for C08".into()];
     let mut class = std::collections::BTreeMap::<&str, u64>::new();
     for w in 0..0x800u16 {
@@ -214,6 +252,26 @@ pub fn c05(run: &mut Run) {
         }
     }
     run.part("after_preceding_frame", json!({"preceding_frames": prevs.iter().map(|p| format!("{:#05X} ({})", p, frame::err_class(*p))).collect::<Vec<_>>(), "cases": 8 * 2048}));
+    // ... and after runs of 2..=48, 64, 127..=129, 255..=257, 300, 511..=513, 1000 and 65535..=65537
+    // (thorough) copies of one frame; probes: valid frames and one frame of every rejection class
+    let run_frames: [u16; 5] = [frame::encode(0x1C), frame::encode(0xF0), frame::encode(0x1C) ^ 0x200, 0x7FF, 0x000];
+    let probes: Vec<u16> = vec![frame::encode(0x1C), frame::encode(0x00), frame::encode(0xFF), frame::encode(0xE0), frame::encode(0xA5), frame::encode(0x1C) ^ 0x200, frame::encode(0x1C) | 1, frame::encode(0x1C) & !0x400, 0x7FF, 0x000, 0x3FE, 0x401];
+    let mut counts: Vec<usize> = (2..=48).collect();
+    counts.extend([64usize, 127, 128, 129, 255, 256, 257, 300, 511, 512, 513, 1000]);
+    if run.tier == crate::report::Tier::Thorough {
+        counts.extend([4095usize, 4096, 4097, 65535, 65536, 65537]);
+    }
+    let mut n_runs = 0u64;
+    for x in run_frames {
+        for &n in &counts {
+            for &w in &probes {
+                c05_eval_after_run(run, x, n, w);
+                run.nontrivial_fp(fp(&("after_run", x, n, w)));
+                n_runs += 1;
+            }
+        }
+    }
+    run.part("after_runs_of_one_frame", json!({"run_frames": run_frames.iter().map(|p| format!("{:#05X} ({})", p, frame::err_class(*p))).collect::<Vec<_>>(), "run_lengths": counts.len(), "probe_frames": probes.len(), "cases": n_runs}));
     // round trip + corruptions
     let (mut single, mut double, mut double_accepted) = (0u64, 0u64, 0u64);
     for b in 0..=255u8 {
@@ -838,6 +896,10 @@ pub fn replay(run: &mut Run, case: &Value) -> bool {
             let w = case["word"].as_u64().unwrap_or(0) as u16;
             let p = case["pending"].as_u64().unwrap_or(0) as usize;
             c05_eval_word(run, w, p);
+            true
+        }
+        "word_after_run" => {
+            c05_eval_after_run(run, case["frame"].as_u64().unwrap_or(0) as u16, case["count"].as_u64().unwrap_or(0) as usize, case["word"].as_u64().unwrap_or(0) as u16);
             true
         }
         "word_after" => {
